@@ -1,0 +1,18 @@
+//go:build !verif
+
+// Package verifhook holds the seams used by the deterministic-simulation harness. Without the
+// "verif" build tag every function here is an inlinable no-op and the shipped behaviour is unchanged.
+package verifhook
+
+import (
+	"context"
+	"net/http"
+)
+
+// Yield is a cooperative scheduling point. No-op without the verif tag.
+func Yield(site string, obj interface{}) {}
+
+// ServeHTTP lets a simulator serve handler in place of a real listener. Never handles without the verif tag.
+func ServeHTTP(ctx context.Context, addr string, handler http.Handler) (handled bool, err error) {
+	return false, nil
+}
